@@ -229,3 +229,18 @@ pub fn c11n_twin_prim_vec_counts() {
 	assert!(r.is_err());
 	core::mem::forget(r);
 }
+
+/// a vector long enough to be decoded in SEVERAL preallocation chunks (3 elements of 2 KiB, 2 per chunk) is still ONE level of
+/// nesting: limit 1 accepts, limit 0 rejects
+#[kani::proof]
+#[kani::unwind(5)]
+pub fn c11q_multi_chunk_vec_is_one_level() {
+	let mut input = [0u8; 1 + 3 * 2048];
+	input[0] = 3 << 2;
+	type T = Vec<[u8; 2048]>;
+	let r = T::decode_with_depth_limit(1, &mut &input[..]);
+	assert!(r.is_ok(), "a vector decoded in several chunks was charged more than one level of nesting");
+	let r0 = T::decode_with_depth_limit(0, &mut &input[..]);
+	assert!(r0.is_err(), "limit 0 accepted a vector");
+	core::mem::forget((r, r0));
+}
